@@ -1,3 +1,16 @@
 // ===== prelude/envctor_impls.rs — Default of the extracted field types (models of `Default::default()` / `#[derive(Default)]`) =====
-impl DefaultV for ContextID { uninterp spec fn is_default(&self) -> bool; #[verifier::external_body] fn default_value() -> (r: Self) { unimplemented!() } }   // a fresh id (AtomicU64::fetch_add)
+// `Default for ContextID` is extracted and proved (`Default@ContextID::default` below): what it returns is a fresh id
+impl DefaultV for ContextID { open spec fn is_default(&self) -> bool { fresh_context_id(self.0 as int) } fn default_value() -> (r: Self) { ContextID::default() } }
+// the global id counter `static CONTEXT_ID: LazyLock<AtomicU64>`: fetch_add(n) returns the value before the addition, atomically; with
+// n >= 1 no two calls (from any task) ever return the same value (u64 wrap-around after 2^64 contexts is not modelled)
+pub uninterp spec fn fresh_context_id(id: int) -> bool;
+pub struct AtomicU64V;
+pub enum OrderingV { Relaxed, Acquire, Release, AcqRel, SeqCst }
+impl AtomicU64V {
+    #[verifier::external_body] pub fn fetch_add(&self, n: u64, order: OrderingV) -> (r: u64) ensures n >= 1 ==> fresh_context_id(r as int) { unimplemented!() }
+    #[verifier::external_body] pub fn load(&self, order: OrderingV) -> (r: u64) { unimplemented!() }
+    #[verifier::external_body] pub fn fetch_sub(&self, n: u64, order: OrderingV) -> (r: u64) { unimplemented!() }
+}
+pub fn context_id_counter() -> (r: AtomicU64V) { AtomicU64V }
+
 impl DefaultV for EnvironmentConfig { open spec fn is_default(&self) -> bool { self.timeout is None && !self.fail_on_timeout } fn default_value() -> (r: Self) { EnvironmentConfig { timeout: None, fail_on_timeout: false } } }
